@@ -3,6 +3,6 @@ import engine_common
 
 
 def run(chk, replay=None):
-    engine_common.run_engine(chk, "C12", ["conv.ndjson", "adv.ndjson", "misuse.ndjson", "sendlim.ndjson"],
+    engine_common.run_engine(chk, "C12", ["conv.ndjson", "adv.ndjson", "misuse.ndjson", "sendlim.ndjson", "mib.ndjson"],
                              select=lambda p: p["kind"] == "conv" or p["role"] == "client",
                              mc=["EngineClient.cfg", "EngineConv.cfg"], mc_thorough=["EngineClientThorough.cfg"])
